@@ -146,3 +146,26 @@ Example C06_repetition_class_nonvacuous :
   let e := [123;60;97;47;58;49;44;62;98;44;99;125;47;42;42]%N in
   exists t r, build e = BuildOk t r /\ rep_class t = true /\ shz t = true /\ rep_free t = false.
 Proof. cbv zeta. do 2 eexists. repeat split; vm_compute; reflexivity. Qed.
+
+(* the two conditions are sharp (witnesses evaluated in the model of the build pipeline): an optional repetition lets its neighbours meet,
+   and the second rule has no wrap-around check *)
+Example C06_optional_repetitions_let_their_neighbours_meet :
+  let e := [97;47;60;98;58;48;44;62;47;99]%N in
+  exists t r x, build e = BuildOk t r /\ rep_class t = false /\ Expands t x /\ chain_ok false x = false.
+Proof.
+  cbv zeta. do 3 eexists. split; [vm_compute; reflexivity|]. split; [vm_compute; reflexivity|]. split.
+  - eapply (E_cat _ _ [_; _; _; _; _]). constructor; [|constructor; [|constructor; [|constructor; [|constructor; [|constructor]]]]]; try apply E_leaf.
+    eapply (E_rep _ _ _ _ []); [split; [vm_compute; discriminate|exact I]|constructor].
+  - vm_compute. reflexivity.
+Qed.
+
+Example C06_the_second_rule_has_no_wrap_around_check :
+  let e := [60;42;97;42;58;50;62]%N in
+  exists t r x, build e = BuildOk t r /\ rep_class t = true /\ shz t = false /\ Expands t x /\ zchain false x = false.
+Proof.
+  cbv zeta. do 3 eexists. split; [vm_compute; reflexivity|]. split; [vm_compute; reflexivity|]. split; [vm_compute; reflexivity|]. split.
+  - eapply (E_cat _ _ [_]). constructor; [|constructor].
+    eapply (E_rep _ _ _ _ [_; _]); [split; vm_compute; [discriminate|discriminate]|].
+    constructor; [|constructor; [|constructor]]; (eapply (E_cat _ _ [_; _; _]); constructor; [apply E_leaf|constructor; [apply E_leaf|constructor; [apply E_leaf|constructor]]]).
+  - vm_compute. reflexivity.
+Qed.
